@@ -218,6 +218,9 @@ def o_parse_options(I, fn, n, args, st):
                     s.mem[("f", inp, "data")] = fs("PTR")
                     s.mem[("f", inp, "size")] = I.nonneg()
                 s.mem[("f", t, "deadline")] = frozenset(a for a in I.TOP_INT if a != 0)
+                for fld in ("first", "second", "third"):
+                    s.mem[("f", ("f", ("f", t, "stop"), fld), "action")] = fs(("sym", "parsed.stop.%s.action" % fld))
+                    s.mem[("f", ("f", ("f", t, "stop"), fld), "timeout")] = fs(("sym", "parsed.stop.%s.timeout" % fld))
                 outs.append((s, fs(0)))
     return outs
 
